@@ -123,6 +123,7 @@ func main() {
 		return
 	}
 	run := ev.Start("C09")
+	defer run.Guard()
 	run.Rule("case = (type, value, format): the value is built K times (fresh Go maps, permuted insertion, nil vs empty containers) and encoded R times each, before and after deliberately failing serializations; all encodings of one case must be byte-identical; " +
 		"every emitted document is token-scanned: keys of every JSON / ROR2 object ascending, query parameters ascending by name, batch ids ascending by encoded form; the whole case list is re-encoded in fresh child processes and the digests compared. " +
 		"distinct = distinct (type, format) with at least one map of >= 2 entries or a record of >= 2 fields in the value")
